@@ -55,7 +55,7 @@ static Case gen_C15(const GenCtx &ctx) {
   c.set("T", T);
   std::vector<std::pair<int, const Op *>> w;
   for (auto &o : ops())
-    if (o.gen && o.weight > 0 && in_props(o, {"C01", "C02", "C03", "C04", "C05", "C06", "C07", "C08"})) w.push_back({o.weight, &o});
+    if (o.gen && o.weight > 0 && in_props(o, {"C01", "C02", "C03", "C04", "C05", "C06", "C07", "C08", "C13", "C17"})) w.push_back({o.weight, &o});
   GenCtx sub = ctx;
   sub.scale = std::min(ctx.scale, 220);
   int steps = g::rng(2, ctx.tier ? 12 : 6);
@@ -127,7 +127,8 @@ static Verdict exec_C15(const Case &c) {
 }
 RegisterProp p_C15({"C15",
                     "random: T in {2,3,4,8,16} threads, each with a generated program of 2..12 catalogue calls (multiplication, "
-                    "elimination, factorisation, TRSM, inversion, solve, kernel, data movement incl. creation and freeing) on operands "
+                    "elimination, factorisation, TRSM, inversion, solve, kernel, data movement incl. creation and freeing, row/column "
+                    "operations, permutations, observers) on operands "
                     "created by that thread, all released together; oracle: in the ThreadSanitizer build of the thread-safe "
                     "configuration zero race reports (a report ends the process and is the verdict), and in every build each step's "
                     "output digest equals the digest of the same program run sequentially, which is itself checked against the model. "
